@@ -22,7 +22,7 @@ pub struct Case {
 }
 
 /// (length, total turning, r0, r1, bump, samples)
-pub const A_SECTIONS: [(f64, f64, f64, f64, f64, usize); 14] = [
+pub const A_SECTIONS: [(f64, f64, f64, f64, f64, usize); 15] = [
     (10.0, 0.0, 0.5, 0.2, 0.0, 200),
     (10.0, 0.6, 0.4, 0.15, 0.6, 300),
     (0.8, 0.4, 0.03, 0.012, 0.05, 300),
@@ -41,6 +41,8 @@ pub const A_SECTIONS: [(f64, f64, f64, f64, f64, usize); 14] = [
     (100.0, 0.4, 3.5, 1.5, 0.0, 400),
     // section 1 scaled by 0.05
     (0.5, 0.6, 0.02, 0.0075, 0.03, 300),
+    // camber line turning by 115 degrees: the spanning rays at its two ends point in opposed directions
+    (10.0, 2.0, 0.45, 0.3, 0.0, 400),
 ];
 /// reflexed-camber sections: (chord, marker, r0, r1, bump, samples); the second entry only has to be non-zero
 pub const R_SECTIONS: [(f64, f64, f64, f64, f64, usize); 2] = [(1.0, 1.0, 0.02, 0.01, 0.05, 400), (25.0, 1.0, 0.5, 0.3, 1.0, 300)];
@@ -193,14 +195,15 @@ fn locator(name: &str, l: f64) -> Box<dyn EdgeLocate> {
 fn locator_explicit(name: &str, l: f64) -> Box<dyn EdgeLocate> {
     match name {
         "fitradius" => FitRadiusEdge::make(Some(1e-4 * l)),
+        "constradius" => ConstRadiusEdge::make(Some(1e-4 * l)),
         "tracemax" => TraceToMaxCurvature::make(Some(0.005)),
-        "converge" => ConvergeTangentEdge::make(Some(1e-4 * l)),
         other => locator(other, l),
     }
 }
 
 fn has_optional_tolerance(name: &str) -> bool {
-    name == "fitradius" || name == "tracemax" || name == "converge"
+    // (the tangent-convergence locator's default is a fraction of the last station's radius, which is not known here)
+    name == "fitradius" || name == "tracemax" || name == "constradius"
 }
 
 pub fn poses() -> [Iso2; 4] {
@@ -213,6 +216,17 @@ struct Summary {
     tmax_r: f64,
     camber_len: f64,
     n: usize,
+    /// does the first / last station's own camber direction point along the camber line (LE to TE)?
+    ends_forward: (bool, bool),
+}
+
+fn ends_forward(g: &AirfoilGeometry) -> (bool, bool) {
+    let n = g.stations.len();
+    if n < 2 {
+        return (true, true);
+    }
+    let f = |a: usize, b: usize, of: usize| g.stations[of].camber_point().normal.dot(&(g.stations[b].center() - g.stations[a].center())) > 0.0;
+    (f(0, 1, 0), f(n - 2, n - 1, n - 1))
 }
 
 fn analyze(sec: &Curve2, l: f64, case: &Case, face: &FaceOrient, fwd: Vector2) -> Result<AirfoilGeometry, String> {
@@ -269,6 +283,41 @@ fn judge_common(g: &AirfoilGeometry, sec: &Curve2, l: f64, case: &Case, tag: &st
     l_.check("stations manufactured by an edge method stay close to inscribed", "", worst_forged <= 20.0 * tau, mk, || format!("{}: {:.3} tau", tag, worst_forged / tau));
     l_.check("both contact points lie on the section one radius from the centre", "", worst_contact <= 2.0 * tau, mk, || format!("{}: {:.3} tau", tag, worst_contact / tau));
     l_.check("contact points lie on opposite sides of the camber direction", "", opposite, mk, || tag.to_string());
+    // every station is oriented like the camber line it belongs to: its positive contact lies in the positive
+    // direction of its own spanning ray, and its own camber direction (perpendicular to the contacts) points to
+    // the next station
+    {
+        let mut labels = true;
+        let mut forward = true;
+        let mut which = String::new();
+        for si in 0..nst {
+            let st = &g.stations[si];
+            // (an end station that an edge method constructs itself - constant radius, RANSAC - carries whatever
+            // ray and labels that method gave it: not judged)
+            let forged = (forged_loc(&case.le) && si == 0) || (forged_loc(&case.te) && si == nst - 1);
+            if st.radius() <= 10.0 * tau || forged {
+                continue;
+            }
+            let ray = st.spanning_ray.ray();
+            // stations carried beyond the end of the medial axis have contacts that nearly coincide: only their
+            // labels are judged, and only where the contacts are clearly apart
+            let beyond_axis = manufactured(st);
+            if beyond_axis && (st.contact_pos - st.contact_neg).norm() <= 0.2 * st.radius() {
+                continue;
+            }
+            if (st.contact_pos - st.contact_neg).dot(&ray.dir) <= 0.0 {
+                labels = false;
+                which = format!("station {} of {}: positive contact behind the negative one along the station's ray", si, nst);
+            }
+            let step = if si + 1 < nst { g.stations[si + 1].center() - st.center() } else if si > 0 { st.center() - g.stations[si - 1].center() } else { continue };
+            if !beyond_axis && step.norm() > 10.0 * tau && st.camber_point().normal.dot(&step.normalize()) < 0.5 {
+                forward = false;
+                which = format!("station {} of {}: camber direction {:?} against the step to its neighbour {:?}", si, nst, st.camber_point().normal, step.normalize());
+            }
+        }
+        l_.check("every station has its positive contact ahead of the negative one along its own spanning ray", "", labels, mk, || format!("{}: {}", tag, which));
+        l_.check("every station's own camber direction points to the next station", "", forward, mk, || format!("{}: {}", tag, which));
+    }
     let arc: Vec<f64> = g.stations.iter().map(|st| g.camber.at_closest_to_point(&st.center()).length_along()).collect();
     l_.check("stations advance monotonically from leading to trailing edge", "", arc.windows(2).all(|w| w[1] >= w[0] - 1e-9 * l), mk, || tag.to_string());
     if let (Some(le), Some(te)) = (&g.leading_edge, &g.trailing_edge) {
@@ -371,14 +420,23 @@ fn judge_a(case: &Case, l_: &mut Local) {
                         judge_common(&g, &sec, l, case, &tag, true, &|_| false, l_);
                         continue;
                     }
-                    judge_common(&g, &sec, l, case, &tag, true, &|_| false, l_);
                     let inv = pose.inverse();
+                    // the curvature-tracing locator carries the camber line on into the rounded end, beyond the end
+                    // of the medial axis (the centre of the end circle): those stations are manufactured
+                    let traced = case.le == "tracemax" || case.te == "tracemax";
+                    let (cs, ce) = (truth(0.0).0, truth(l).0);
+                    let (ts, te_) = ((truth(l * 1e-3).0 - cs).normalize(), (ce - truth(l * (1.0 - 1e-3)).0).normalize());
+                    let beyond = |st: &InscribedCircle| {
+                        let c0 = inv * st.center();
+                        traced && ((c0 - cs).dot(&ts) < -(tau + h) || (c0 - ce).dot(&te_) > tau + h)
+                    };
+                    judge_common(&g, &sec, l, case, &tag, true, &beyond, l_);
                     let nst = g.stations.len();
                     let forged_loc = |name: &str| name == "constradius" || name == "ransac";
                     let mut wc = 0.0f64;
                     let mut wr = 0.0f64;
                     for (si, st) in g.stations.iter().enumerate() {
-                        if (forged_loc(&case.le) && si == 0) || (forged_loc(&case.te) && si == nst - 1) {
+                        if (forged_loc(&case.le) && si == 0) || (forged_loc(&case.te) && si == nst - 1) || beyond(st) {
                             continue;
                         }
                         let c0 = inv * st.center();
@@ -457,7 +515,7 @@ fn judge_a(case: &Case, l_: &mut Local) {
                             }
                         }
                     }
-                    let s = Summary { le: g.leading_edge.as_ref().map(|e| inv * e.point), te: g.trailing_edge.as_ref().map(|e| inv * e.point), tmax_r: tm, camber_len: g.camber.length(), n: nst };
+                    let s = Summary { le: g.leading_edge.as_ref().map(|e| inv * e.point), te: g.trailing_edge.as_ref().map(|e| inv * e.point), tmax_r: tm, camber_len: g.camber.length(), n: nst, ends_forward: ends_forward(&g) };
                     if let Some(r) = &reference {
                         let dl = match (s.le, r.le, s.te, r.te) {
                             (Some(a), Some(b), Some(c), Some(d)) => d2(&a, &b).max(d2(&c, &d)),
@@ -466,6 +524,7 @@ fn judge_a(case: &Case, l_: &mut Local) {
                         let dev = dl.max((s.tmax_r - r.tmax_r).abs()).max((s.camber_len - r.camber_len).abs());
                         l_.check("results are unchanged by rigid motion, vertex order and start vertex", "", dev <= 8.0 * (tau + h), mk, || format!("{}: differs from the first variant by {:.3} (tau+h)", tag, dev / (tau + h)));
                         let _ = r.n;
+                        l_.check("the end stations are oriented the same way whatever the pose, vertex order and start vertex", "", s.ends_forward == r.ends_forward, mk, || format!("{}: first/last station forward {:?}, in the first variant {:?}", tag, s.ends_forward, r.ends_forward));
                     } else {
                         reference = Some(s);
                     }
@@ -743,6 +802,20 @@ pub fn cases(tier: Tier) -> Vec<Case> {
                     out.push(Case { family: "A".into(), section, le: le.into(), te: "intersect".into(), orient: orient.into(), detect_face });
                 }
             }
+        }
+    }
+    // the curvature-tracing locator at the leading edge of the envelope family (it back-fills stations there)
+    for section in (0..na).filter(|s| A_SECTIONS[*s].0 != 2.5) {
+        let (_, _, r0, r1, bump, _) = A_SECTIONS[section];
+        if !(r0 == r1 && bump == 0.0) {
+            out.push(Case { family: "A".into(), section, le: "tracemax".into(), te: "intersect".into(), orient: "tmax".into(), detect_face: true });
+        }
+        out.push(Case { family: "A".into(), section, le: "tracemax".into(), te: "tracemax".into(), orient: "dir".into(), detect_face: false });
+    }
+    // the strongly turning section with every leading-edge locator that appends a station of its own
+    for le in ["intersect", "fitradius", "constradius", "ransac", "tracemax"] {
+        for te in ["intersect", "constradius"] {
+            out.push(Case { family: "A".into(), section: A_SECTIONS.len() - 1, le: le.into(), te: te.into(), orient: "dir".into(), detect_face: false });
         }
     }
     // reflexed (S-shaped) camber: face detection must follow the dominant bow
